@@ -143,3 +143,20 @@ def outside_loop_programs():
                     src = 'while False:\n    def f(a=1):\n' + ind(body, 2)
                 out.append({'id': 'noloop-%s-%s-%s' % (st, wn, ctx), 'src': PRE + src})
     return out
+
+
+def handler_clause_programs():
+    """except clauses whose class expression is not (only) exception classes: a tuple member that is no exception class makes the clause raise
+    TypeError when an exception reaches it - whether or not another member matches, wherever in the tuple the bad member stands."""
+    out = []
+    clauses = ['(ValueError, 42)', '(42, ValueError)', '(KeyError, 42)', '42', '(ValueError, None)', '(ValueError, "s")', '(ValueError, object)', '(ValueError, int, KeyError)', '(KeyError, ValueError, 1.5)',
+               '((ValueError, 42),)', '(ValueError, (KeyError, 42))', '()', '(ValueError,)', 'NotExc', '(Exception, NotExc)', '(NotExc, Exception)', '[ValueError]', '(LookupError, E1, 0)', 'E1', '(E1, 7)']
+    raises = ['raise ValueError("v")', 'raise KeyError("k")', 'raise E1', 'pass', 'q = 1 // 0']
+    for ci, cl in enumerate(clauses):
+        for ri, rs in enumerate(raises):
+            for asn in ('', ' as e'):
+                src = ('class E1(ValueError):\n    pass\nclass NotExc:\n    pass\ndef f():\n    try:\n        try:\n            print("body")\n            %s\n            print("body-end")\n        except %s%s:\n            print("handler")\n'
+                       '        else:\n            print("else")\n        finally:\n            print("finally")\n    except TypeError:\n        print("outer-TypeError")\n    except ValueError:\n        print("outer-ValueError")\n'
+                       '    except LookupError:\n        print("outer-LookupError")\n    except ZeroDivisionError:\n        print("outer-ZeroDivisionError")\n    return "end"\nprint(f())\n' % (rs, cl, asn))
+                out.append({'id': 'hclause-%d-%d-%s' % (ci, ri, 'as' if asn else 'plain'), 'src': src, 'family': 'handler-clause-validation', 'outer': rs.split('(')[0].replace('raise ', ''), 'inner': cl})
+    return out
